@@ -124,15 +124,62 @@ def run_replay(vh, sc, dbs, cases, tag):
     return fails, summ
 
 
-def gen(sc, name, genset, seed, nseeded, out, workers=4, timeout=1500):
+MINCASES = {"cond": 1000, "pair": 460, "full": 4000}
+
+
+def gen(vh, sc, name, genset, seed, nseeded, out, workers=4, timeout=1500):
+    """TLC generates the cases of one family, then they are replayed on the real engine"""
     d = os.path.join(sc, "gen-" + name)
     os.makedirs(d, exist_ok=True)
     try:
-        r = vlib.tlc("query", "QueryGen", "QueryGen.cfg", scratch=d, timeout=timeout, workers=workers,
+        g = vlib.tlc("query", "QueryGen", "QueryGen.cfg", scratch=d, timeout=timeout, workers=workers,
                      consts='CONSTANT GenSet = "%s"\nCONSTANT Seed = %d\nCONSTANT NSeeded = %d' % (genset, seed, nseeded))
-        out[name] = r
+        vlib.expect_tlc_ok(g, "QueryGen " + name)
+        if g.violation:
+            raise vlib.MachineryError("QueryGen %s: %s" % (name, g.violation))
+        vlib.require(g.infos and "dbs" in g.infos[0], "QueryGen %s printed no databases" % name)
+        dbs = g.infos[0]["dbs"]
+        cases = [c for t in g.traces for c in t]
+        vlib.require(len(cases) >= MINCASES[name], "generator %s produced too few cases" % name)
+        fails, summ = run_replay(vh, sc, dbs, cases, name)
+        g.stdout = ""
+        out[name] = (g, dbs, cases, fails, summ)
     except Exception as e:  # noqa
         out[name] = e
+
+
+def backward(vh, sc, seed, plan, out):
+    """seeded driver on the real engine, then TLC judges every logged event; the last event is a copy of an
+    accepted one with one counter changed (negative control, must be the only extra mismatch)"""
+    try:
+        bdir = os.path.join(sc, "drive")
+        os.makedirs(bdir)
+        lines = []
+        for size_, ndb, nq in plan:
+            p = subprocess.run([vh, "query-drive", "-dir", os.path.join(bdir, "s%d" % size_), "-seed", str(seed * 10 + size_),
+                                "-dbs", str(ndb), "-queries", str(nq), "-size", str(size_)], stdout=subprocess.PIPE,
+                               stderr=subprocess.PIPE, text=True, env=dict(os.environ, GOMAXPROCS="1"))
+            if p.returncode != 0:
+                raise vlib.MachineryError("query-drive failed: " + p.stderr[-2000:])
+            lines += p.stdout.splitlines()
+        evs = [json.loads(x) for x in lines]
+        # negative control event: the last non-empty result, one counter changed
+        cand = [i for i, e in enumerate(evs) if e["ev"] == "Q" and e["hits"] > 0 and not e["err"]]
+        vlib.require(cand, "driver produced no non-empty query result")
+        i = cand[-1]
+        vlib.require(all(e["ev"] == "Q" for e in evs[i:]), "negative control: wrong database")
+        bad = json.loads(lines[i])
+        bad["rows"][0]["ps"] += 1
+        bad["neg"] = True
+        lines.append(json.dumps(bad, separators=(",", ":")))
+        t = vlib.tlc("query", "QueryTrace", "QueryTrace.cfg", workers=1, files={"trace.ndjson": "\n".join(lines) + "\n"},
+                     scratch=os.path.join(sc, "drive"), timeout=2400, heap="12g")
+        if t.error:
+            raise vlib.MachineryError("QueryTrace: %s\n%s" % (t.error, t.stdout[-2000:]))
+        t.stdout = ""
+        out["B"] = (t, evs, i)
+    except Exception as e:  # noqa
+        out["B"] = e
 
 
 def mc(sc, name, cfg, consts, out, coverage=False, workers=4, timeout=1500):
@@ -148,44 +195,40 @@ def main():
     run = vlib.Run("C08", "model_checking")
     thorough = run.tier == "thorough"
     vh = vlib.build_vh("query")
+    classes = {}
+
+    def report(desc, rep):
+        key = json.dumps(desc, sort_keys=True)
+        classes[key] = classes.get(key, 0) + 1
+        run.violation(desc, rep)
+
     with vlib.Scratch("verif-c08-") as sc:
-        # ---------------------------------------------------------------- TLC runs (side by side)
+        # ---------------------------------------------------------------- everything runs side by side
         res = {}
         size = "thorough" if thorough else "quick"
+        T = threading.Thread
         jobs = [
-            threading.Thread(target=mc, args=(sc, "sound", "QueryMC.cfg", 'CONSTANT MCSize = "%s"' % size, res),
-                             kwargs={"coverage": True, "workers": 6 if thorough else 4}),
-            threading.Thread(target=mc, args=(sc, "deep", "QueryMC.cfg", 'CONSTANT MCSize = "deep"\nCONSTANT NWorkers = 2', res)),
-            threading.Thread(target=mc, args=(sc, "asbuilt", "QueryMCAsBuilt.cfg", 'CONSTANT MCSize = "quick"', res),
-                             kwargs={"workers": 2}),
-            threading.Thread(target=gen, args=(sc, "cond", "cond-thorough" if thorough else "cond-quick", run.seed, 1, res),
-                             kwargs={"workers": 8 if thorough else 6, "timeout": 2400}),
-            threading.Thread(target=gen, args=(sc, "pair", "pair", run.seed, 20 if thorough else 6, res)),
-            threading.Thread(target=gen, args=(sc, "z", "z", run.seed, 1, res), kwargs={"workers": 1}),
+            T(target=gen, args=(vh, sc, "cond", "cond-thorough" if thorough else "cond-quick", run.seed, 1, res),
+              kwargs={"workers": 8 if thorough else 6, "timeout": 2400}),
+            T(target=mc, args=(sc, "sound", "QueryMC.cfg", 'CONSTANT MCSize = "%s"' % size, res),
+              kwargs={"coverage": True, "workers": 6 if thorough else 4}),
+            T(target=backward, args=(vh, sc, run.seed, [(1, 12, 60), (2, 8, 50), (3, 3, 40)] if thorough else [(1, 5, 30), (2, 2, 30)], res)),
+            T(target=gen, args=(vh, sc, "pair", "pair", run.seed, 20 if thorough else 4, res)),
+            T(target=mc, args=(sc, "asbuilt", "QueryMCAsBuilt.cfg", 'CONSTANT MCSize = "quick"', res), kwargs={"workers": 2}),
         ]
         if thorough:
-            jobs.append(threading.Thread(target=mc, args=(sc, "off", "QueryMC.cfg",
-                                                          'CONSTANT MCSize = "quick"\nCONSTANT Pruning = "off"', res)))
-            jobs.append(threading.Thread(target=gen, args=(sc, "full", "full", run.seed, 2, res)))
+            jobs.append(T(target=mc, args=(sc, "deep", "QueryMC.cfg", 'CONSTANT MCSize = "deep"\nCONSTANT NWorkers = 2', res)))
+            jobs.append(T(target=mc, args=(sc, "off", "QueryMC.cfg", 'CONSTANT MCSize = "quick"\nCONSTANT Pruning = "off"', res)))
+            jobs.append(T(target=gen, args=(vh, sc, "full", "full", run.seed, 2, res)))
         for j in jobs:
             j.start()
-        # ---------------------------------------------------------------- B driver meanwhile
-        bdir = os.path.join(sc, "drive")
-        os.makedirs(bdir)
-        tfile = os.path.join(sc, "trace.ndjson")
-        plan = [(1, 6, 40), (2, 3, 30)] if not thorough else [(1, 12, 60), (2, 8, 50), (3, 3, 40)]
-        with open(tfile, "w") as fh:
-            for size_, ndb, nq in plan:
-                p = subprocess.run([vh, "query-drive", "-dir", os.path.join(bdir, "s%d" % size_), "-seed", str(run.seed * 10 + size_),
-                                    "-dbs", str(ndb), "-queries", str(nq), "-size", str(size_)], stdout=fh,
-                                   stderr=subprocess.PIPE, text=True, env=dict(os.environ, GOMAXPROCS="1"))
-                if p.returncode != 0:
-                    raise vlib.MachineryError("query-drive failed: " + p.stderr[-2000:])
         for j in jobs:
             j.join()
         for k, v in res.items():
+            if isinstance(v, vlib.MachineryError):
+                raise v
             if isinstance(v, Exception):
-                raise vlib.MachineryError("TLC job %s: %s" % (k, v))
+                raise vlib.MachineryError("job %s: %r" % (k, v))
 
         # ---------------------------------------------------------------- M
         r = vlib.expect_tlc_ok(res["sound"], "QueryMC")
@@ -210,44 +253,35 @@ def main():
         run.add_tlc(a, "QueryMCAsBuilt (expected violation)")
 
         # ---------------------------------------------------------------- F
-        nf_total = 0
         first_ok = None
-        for name in ("z", "cond", "pair", "full"):
+        for name in ("cond", "pair", "full"):
             if name not in res:
                 continue
-            g = vlib.expect_tlc_ok(res[name], "QueryGen " + name)
-            if g.violation:
-                raise vlib.MachineryError("QueryGen %s: %s" % (name, g.violation))
-            vlib.require(g.infos and "dbs" in g.infos[0], "QueryGen %s printed no databases" % name)
-            dbs = g.infos[0]["dbs"]
-            cases = [c for t in g.traces for c in t]
-            vlib.require(len(cases) >= {"z": 16, "cond": 1000, "pair": 600, "full": 4000}[name], "generator %s produced too few cases" % name)
+            g, dbs, cases, fails, summ = res[name]
             run.add_tlc(g, "QueryGen/" + name)
-            fails, summ = run_replay(vh, sc, dbs, cases, name)
             run.count(len(cases))
             run.cov["traces_validated_against_impl"] += len(cases)
-            nf_total += len(fails)
             for c in cases:
                 if c["exp"]["hits"] > 0:
                     run.distinct(json.dumps([c["db"], c["q"]], sort_keys=True))
             run.cov.setdefault("forward", {})[name] = {"cases": len(cases), "failed": len(fails), "rows_returned": sum(s["rows"] for s in summ),
-                                                         "pruning_sensitive": sum(1 for c in cases if c["ptag"] != "same")}
-            if first_ok is None or name == "pair":
-                failing = {f["id"] for f in fails}
+                                                         "pruning_sensitive": sum(1 for c in cases if c["ptag"] != "same"),
+                                                         "nonempty_expected": sum(1 for c in cases if c["exp"]["hits"] > 0)}
+            if name == "pair":
                 for c in cases:
-                    if c["exp"]["hits"] > 1 and c["ptag"] == "same" and c["class"] != "z":
+                    if c["exp"]["hits"] > 1 and c["ptag"] == "same" and c["class"] == "pair":
                         first_ok = (dbs, c)
                         break
-            run.sample({"kind": "forward case " + name, "db": cases[len(cases) // 2]["db"],
-                        "q": {k: v for k, v in cases[len(cases) // 2]["q"].items() if k != "cond"},
-                        "expected_hits": cases[len(cases) // 2]["exp"]["hits"]})
-            for f in fails:
+            mid = cases[len(cases) // 2]
+            run.sample({"kind": "forward case " + name, "db": mid["db"], "q": {k: v for k, v in mid["q"].items() if k != "cond"},
+                        "expected_hits": mid["exp"]["hits"]})
+            for f in sorted(fails, key=lambda f: json.dumps(f["case"], sort_keys=True)):
                 c = f["case"]
                 desc = classify(c["q"], c["exp"]["rows"], f.get("got", {}), f["kind"], c.get("ptag"), c.get("prows", []))
                 desc["binding"] = "F"
-                run.violation(desc, {"kind": "query-replay", "dbs": {c["db"]: dbs[c["db"]]}, "case": c, "text": f.get("text"),
-                                     "qtype": f.get("qtype"), "got": f.get("got"), "msg": f.get("msg", "")[:1500]})
-        # negative control of the binding: one corrupted expectation must be rejected
+                report(desc, {"kind": "query-replay", "dbs": {c["db"]: dbs[c["db"]]}, "case": c, "text": f.get("text"),
+                              "qtype": f.get("qtype"), "got": f.get("got"), "msg": f.get("msg", "")[:1500]})
+        # negative control of the binding: corrupted expectations must be rejected, the original accepted
         vlib.require(first_ok is not None, "no case for the negative control")
         dbs0, c0 = first_ok
         bad1 = json.loads(json.dumps(c0))
@@ -258,35 +292,37 @@ def main():
         bad3["exp"]["totals"][2] += 1
         nfails, _ = run_replay(vh, sc, dbs0, [c0, bad1, bad2, bad3], "neg")
         kinds = sorted((f["id"], f["kind"]) for f in nfails)
+        if kinds and kinds[0][0] == 0:
+            kinds = kinds[1:]       # the original case itself fails (reported above)
         vlib.require(kinds == [(1, "rows"), (2, "rows"), (3, "totals")],
                      "negative control: corrupted expectations not rejected as expected: %s" % kinds)
-        run.cov["negative_control_F"] = "corrupted counter / dropped row / corrupted totals rejected, original accepted"
+        run.cov["negative_control_F"] = "corrupted counter / dropped row / corrupted totals rejected"
 
         # ---------------------------------------------------------------- B
-        lines = open(tfile).read().splitlines()
-        nq = sum(1 for x in lines if '"ev":"Q"' in x)
-        t = vlib.tlc("query", "QueryTrace", "QueryTrace.cfg", workers=1, files={"trace.ndjson": tfile}, scratch=sc,
-                     timeout=2400, heap="12g")
-        if t.error:
-            raise vlib.MachineryError("QueryTrace: %s\n%s" % (t.error, t.stdout[-2000:]))
+        t, evs, negsrc = res["B"]
         vlib.require(t.violation is None, "QueryTrace did not consume the trace: %s" % t.violation)
         run.add_tlc(t, "QueryTrace")
+        nq = sum(1 for e in evs if e["ev"] == "Q")
         run.count(nq)
         run.cov["traces_validated_against_impl"] += nq
-        evs = [json.loads(x) for x in lines]
-        run.cov["backward"] = {"events": len(lines), "queries": nq, "mismatches": len(t.mismatches),
+        negline = len(evs) + 1
+        mism = [m for m in t.mismatches if m.get("line") != negline]
+        vlib.require(len(mism) == len(t.mismatches) - 1, "negative control: corrupted logged row was accepted by QueryTrace")
+        run.cov["negative_control_B"] = "copy of event %d with one counter changed rejected" % (negsrc + 1)
+        run.cov["backward"] = {"events": len(evs), "queries": nq, "mismatches": len(mism),
                                "max_records_per_db": max([e.get("records", 0) for e in evs if e["ev"] == "DB"] or [0]),
                                "rows_logged": sum(len(e.get("rows", [])) for e in evs if e["ev"] == "Q")}
         for e in evs:
             if e["ev"] == "Q" and e["hits"] > 0:
                 run.distinct(json.dumps(e["q"], sort_keys=True))
+        run.sample({"kind": "driver event", "qtype": evs[negsrc]["qtype"], "condition": evs[negsrc]["text"], "hits": evs[negsrc]["hits"]})
         cur = None
         dbat = {}
         for i, e in enumerate(evs):
             if e["ev"] == "DB":
                 cur = e
             dbat[i + 1] = cur
-        for mm in t.mismatches:
+        for mm in mism:
             ln = mm.get("line", 0)
             e = evs[ln - 1]
             got = {"rows": e["rows"], "totals": e["totals"], "hits": e["hits"], "ifaces": e["ifaces"]}
@@ -306,26 +342,14 @@ def main():
             desc = classify(e["q"], exp["rows"], got, kind, ptag, pr)
             desc["binding"] = "B"
             case = {"db": "d", "q": e["q"], "exp": exp, "ptag": ptag, "prows": pr, "class": "drive"}
-            run.violation(desc, {"kind": "query-replay", "dbs": {"d": dbat[ln]["db"]}, "case": case, "text": e.get("text"),
-                                 "qtype": e.get("qtype"), "got": got, "msg": e.get("err", "")[:1500]})
-        # negative control: a corrupted logged row must be reported by TLC
-        okq = [i for i, e in enumerate(evs) if e["ev"] == "Q" and e["hits"] > 0 and (i + 1) not in {m.get("line") for m in t.mismatches}]
-        vlib.require(okq, "driver produced no accepted non-empty query")
-        i = okq[len(okq) // 2]
-        badl = list(lines)
-        e = json.loads(badl[i])
-        e["rows"][0]["ps"] += 1
-        badl[i] = json.dumps(e)
-        # keep only the database of that event and the event (fast)
-        dbi = max(k for k in range(i) if evs[k]["ev"] == "DB")
-        n = vlib.tlc("query", "QueryTrace", "QueryTrace.cfg", workers=1, files={"trace.ndjson": badl[dbi] + "\n" + badl[i] + "\n"},
-                     scratch=sc, timeout=900)
-        vlib.require(not n.error and len(n.mismatches) == 1, "negative control: corrupted logged row was accepted")
-        run.cov["negative_control_B"] = "corrupted logged row of event %d rejected" % (i + 1)
+            report(desc, {"kind": "query-replay", "dbs": {"d": dbat[ln]["db"]}, "case": case, "text": e.get("text"),
+                          "qtype": e.get("qtype"), "got": got, "msg": e.get("err", "")[:1500]})
 
+    if classes:
+        run.cov["mismatch_classes"] = {k: v for k, v in sorted(classes.items())}
     run.cov["rule"] = ("evaluations = queries run on the real engine; distinct = distinct (database, query) pairs whose expected "
                        "result is non-empty; F: cond = all trees of height <= 2 over %s core atoms, pair = pairwise design (112 "
-                       "queries per seeded database), full = full product (thorough), z = low-zero IPv6 addresses; B: seeded driver"
+                       "queries per seeded database, plus 16 cases with low-zero IPv6 addresses), full = full product (thorough); B: seeded driver"
                        % ("six" if thorough else "four"))
     run.assumptions += ["block timestamps are multiples of 300 s (time binning is C13)",
                         "rows are compared on the requested attributes and labels only; Labels.Iface is compared when the iface label "
